@@ -448,6 +448,30 @@ func numberPrograms() []prog {
 	return []prog{{"numbers", single("numbers/pow2", f)}, {"numbers", single("numbers/orders", of)}}
 }
 
+// sizePrograms: a shallow schema (real nesting depth 3) that names an already compiled message type more often than
+// any recursion / size limit of the library counts to (proto.DefaultRecursionLimit = 10000): 106 messages with 100
+// singular or repeated fields of one leaf type each.
+func sizePrograms() []prog {
+	leaf := &pj.Msg{Name: "Leaf", Fields: []*pj.Field{pj.F("v", 1, pj.Int32)}}
+	root := &pj.Msg{Name: "Root"}
+	msgs := []*pj.Msg{leaf}
+	for i := 0; i < 106; i++ {
+		m := &pj.Msg{Name: fmt.Sprintf("M%d", i)}
+		for j := 1; j <= 100; j++ {
+			f := pj.FM(fmt.Sprintf("f%d", j), j, "Leaf")
+			if j%2 == 0 {
+				f = f.Repeated()
+			}
+			m.Fields = append(m.Fields, f)
+		}
+		msgs = append(msgs, m)
+		root.Fields = append(root.Fields, pj.FM(fmt.Sprintf("m%d", i), i+1, m.Name))
+	}
+	msgs = append(msgs, root)
+	f := &pj.File{Pkg: "pz", Msgs: msgs, Svcs: []*pj.Service{pj.OneMethodService("Root", "Root")}}
+	return []prog{{"size", single("size/10600-references-to-one-leaf-type", f)}}
+}
+
 func allPrograms() []prog {
 	var out []prog
 	out = append(out, servicePrograms()...)
@@ -458,5 +482,6 @@ func allPrograms() []prog {
 	out = append(out, targetPrograms()...)
 	out = append(out, mapEntryPrograms()...)
 	out = append(out, collidePrograms()...)
+	out = append(out, sizePrograms()...)
 	return out
 }
